@@ -15,6 +15,10 @@ fn is_err(s: &str) -> bool { let b = s.as_bytes(); b.len() >= 3 && b[0] == b'E' 
 fn resource_heavy(toks: &[String]) -> bool {
     let cmd = toks.first().map(|s| s.as_str()).unwrap_or("");
     for w in toks.windows(2) {
+        // `clause-update t N` recompiles with N features: a huge N is a resource question as well
+        if (w[0] == "t" || w[0] == "total-features") && cmd == "clause-update" {
+            if let Ok(v) = w[1].trim_start_matches('+').parse::<u64>() { if v > 16 { return true; } }
+        }
         if (w[0] == "l" || w[0] == "limit") && (cmd == "random" || cmd == "t-wise") {
             if let Ok(v) = w[1].trim_start_matches('+').parse::<u64>() { if v > (if cmd == "t-wise" { 3 } else { 10_000 }) { return true; } }
         }
